@@ -21,7 +21,6 @@ import (
 	"net/netip"
 	"os"
 	"path/filepath"
-	"runtime/pprof"
 	"strconv"
 	"strings"
 	"sync"
@@ -59,6 +58,7 @@ type Job struct {
 	TraceSample int        `json:"trace_sample"`
 	Random      int        `json:"random"`
 	Workers     int        `json:"workers"`
+	MapsPer     int        `json:"maps_per"` // > 0: each behaviour is replayed under this many maps (rotating)
 }
 
 type FragMap struct {
@@ -279,10 +279,10 @@ type Run struct {
 }
 
 var (
-	job                 Job
+	job                   Job
 	nSets, nQueries, nMis int64
-	tmpDir              string
-	fileSeq             int64
+	tmpDir                string
+	fileSeq               int64
 )
 
 func guard(f func() (lookup, error)) (l lookup, err error) {
@@ -390,7 +390,12 @@ func tgtOf(idx int) string { return fmt.Sprintf("target-%d.test", idx) }
 
 func replayBeh(idx int, b *Beh, rng *rand.Rand, env *plugEnv) {
 	n := len(b.Rules)
-	for mi := range fragMaps {
+	nm := len(fragMaps)
+	if job.MapsPer > 0 && job.MapsPer < nm {
+		nm = job.MapsPer
+	}
+	for mk := 0; mk < nm; mk++ {
+		mi := (idx + mk) % len(fragMaps)
 		m := &fragMaps[mi]
 		txt := make([]string, n)
 		for i := range b.Rules {
@@ -698,11 +703,6 @@ func main() {
 	}
 	defer os.RemoveAll(tmpDir)
 
-	if pf := os.Getenv("VERIF_PPROF"); pf != "" {
-		f, _ := os.Create(pf)
-		pprof.StartCPUProfile(f)
-		defer pprof.StopCPUProfile()
-	}
 	var wg sync.WaitGroup
 	var next int64 = -1
 	for w := 0; w < job.Workers; w++ {
